@@ -206,7 +206,7 @@ pub open spec fn step_set_permissions(s: Raw, t: Raw, sender: Seq<char>, spender
 @fn contracts/cw1-subkeys/src/contract.rs execute_increase_allowance [closures: 3]
 @requires
     inv_wf(old(deps.storage).view())
-@ensures C08.increase_exact C17
+@ensures C08.increase_exact C17 C07 C16
     r is Ok ==> step_increase(old(deps.storage).view(), final(deps.storage).view(), info.sender@, spender@, amount, expires, &env.block)
 @ensures C08.increase_inv
     r is Ok ==> inv_wf(final(deps.storage).view())
@@ -249,7 +249,7 @@ pub open spec fn step_set_permissions(s: Raw, t: Raw, sender: Seq<char>, spender
 @end
 
 @fn contracts/cw1-subkeys/src/contract.rs execute_set_permissions
-@ensures C17.set_permissions_exact C08
+@ensures C17.set_permissions_exact C08 C07 C16
     r is Ok ==> step_set_permissions(old(deps.storage).view(), final(deps.storage).view(), info.sender@, spender@, perm)
 @ensures C07.set_permissions_nomsg
     r is Ok ==> r->Ok_0.messages@.len() == 0
@@ -258,7 +258,7 @@ pub open spec fn step_set_permissions(s: Raw, t: Raw, sender: Seq<char>, spender
 @fn contracts/cw1-subkeys/src/contract.rs execute_decrease_allowance [closures: 2]
 @requires
     inv_wf(old(deps.storage).view())
-@ensures C08.decrease_exact C17
+@ensures C08.decrease_exact C17 C07 C16
     r is Ok ==> step_decrease(old(deps.storage).view(), final(deps.storage).view(), info.sender@, spender@, amount, expires, &env.block)
 @ensures C08.decrease_inv
     r is Ok ==> inv_wf(final(deps.storage).view())
@@ -531,7 +531,7 @@ pub proof fn lemma_c17_step(s: Raw, t: Raw, sender: Seq<char>, b: &BlockInfo, ms
 pub open spec fn str_cursor(c: Option<String>) -> Option<Seq<u8>> { match c { Some(s) => Some(utf8(s@)), None => None } }
 
 @fn contracts/cw1-subkeys/src/contract.rs calc_limit
-@ensures C20.calc_limit
+@ensures C20.calc_limit C08 C07
     r as int == page_limit(request)
 @end
 
@@ -544,7 +544,7 @@ pub open spec fn item_live(x: StdResult<(Addr, Allowance)>, b: BlockInfo) -> boo
 }
 
 @fn contracts/cw1-subkeys/src/contract.rs query_all_allowances [closures: 4]
-@ensures C20.all_allowances_page
+@ensures C20.all_allowances_page C08
     r is Ok ==> ({
         let pg = page_f(listing(deps.storage.view(), "allowances"@, Seq::<u8>::empty(), false), str_cursor(start_after), limit, live_at(env.block));
         r->Ok_0.allowances@.len() == pg.len() && forall|i: int| 0 <= i < pg.len() ==> utf8((#[trigger] r->Ok_0.allowances@[i]).spender@) == pg[i].0
@@ -600,7 +600,7 @@ pub open spec fn item_live(x: StdResult<(Addr, Allowance)>, b: BlockInfo) -> boo
 @end
 
 @fn contracts/cw1-subkeys/src/contract.rs query_all_permissions [closures: 3]
-@ensures C20.all_permissions_page
+@ensures C20.all_permissions_page C07
     r is Ok ==> ({
         let pg = page(listing(deps.storage.view(), "permissions"@, Seq::<u8>::empty(), false), str_cursor(start_after), limit);
         r->Ok_0.permissions@.len() == pg.len() && forall|i: int| 0 <= i < pg.len() ==> utf8((#[trigger] r->Ok_0.permissions@[i]).spender@) == pg[i].0
